@@ -480,10 +480,12 @@ func (s *state) walkTemplate(dot reflect.Value, t *parse.TemplateNode) {
 
 	var newState state
 	var found bool
+	// the block content bound by the caller: the latest binding of that name made by a frame above this
+	// one (a binding this frame made itself, for a call of its own, is not its block). The binding stays,
+	// so that a mixin can place its block more than once.
 	for i := len(s.boundBlocks) - 1; i >= 0; i-- {
-		if s.boundBlocks[i].name == name {
+		if s.boundBlocks[i].name == name && s.boundBlocks[i].scope.depth < s.depth {
 			newState = *s.boundBlocks[i].scope
-			s.boundBlocks = append(s.boundBlocks[:i], s.boundBlocks[i+1:]...)
 			found = true
 			break
 		}
@@ -493,7 +495,9 @@ func (s *state) walkTemplate(dot reflect.Value, t *parse.TemplateNode) {
 		newState = *s
 		newState.vars = make([]variable, len(s.globals))
 		copy(newState.vars, s.globals)
+		newState.depth++
 	}
+	// (block content runs at the depth of the frame that bound it: it is that frame's code)
 
 	if s.trace {
 		ctx, span := trace.StartSpan(s.ctx.Interface().(context.Context), "flamingo/pugtemplate/walkTemplate")
@@ -505,7 +509,6 @@ func (s *state) walkTemplate(dot reflect.Value, t *parse.TemplateNode) {
 		newState.ctx = s.ctx
 	}
 
-	newState.depth++
 	newState.tmpl = tmpl
 	// No dynamic scoping: template invocations inherit no variables.
 
